@@ -161,7 +161,11 @@ def mesh_plane(
         # do a cross section against all faces
         faces = mesh.faces
     else:
-        local_faces = np.asanyarray(local_faces, dtype=np.int64)
+        local_faces = np.asanyarray(local_faces)
+        if local_faces.dtype.kind == "b":
+            # a boolean mask selects faces the way `mesh.faces[mask]` does
+            local_faces = np.nonzero(local_faces)[0]
+        local_faces = local_faces.astype(np.int64)
         # only take the subset of faces if passed
         faces = mesh.faces[local_faces]
 
